@@ -207,8 +207,18 @@ def run_geometry(root=None):
         try:
             out = it.call_func(f, [], dict(bind), mod.funcs[fname])
         except Unsupported as e:
-            res["error"] = f"{e} [stack {it.callstack}]"
-            out = None
+            # same policy as for the field functions: judge the typed remainder in tolerant mode, claim nothing about the rest
+            why = f"{e} [stack {it.callstack}]"
+            dom = LinDimDomain()
+            dom.repo_summaries = {}
+            it = Interp(arepo, dom)
+            it.tolerant = True
+            try:
+                out = it.call_func(f, [], dict(bind), mod.funcs[fname])
+                res["undecided"] = why
+            except (Unsupported, BudgetExceeded, RecursionError) as e2:
+                res["error"] = f"{e2} [stack {it.callstack}]"
+                out = None
         res.update({"out": repr(out), "nexpr": dom.nexpr, "maxexp": dom.maxexp, "findings": dom.findings})
         results.append(res)
     return results
